@@ -6,11 +6,13 @@ import (
 	"fmt"
 	"math/rand"
 	"sync"
+	"sync/atomic"
 	"testing"
 	"testing/synctest"
 	"time"
 
 	bstore "github.com/ipfs/boxo/blockstore"
+	blocks "github.com/ipfs/go-block-format"
 	"github.com/ipfs/go-cid"
 	"github.com/ipfs/go-datastore"
 	dss "github.com/ipfs/go-datastore/sync"
@@ -158,11 +160,34 @@ type e2eNode struct {
 	sub  *doubles.SubLog
 	val  *doubles.RecValidator
 	name string
+	// putDelay (ns) is slept before every block write of this node's stores: a slow disk, so that
+	// protocol messages can overtake the accounting of blocks that are already on the wire
+	putDelay atomic.Int64
+}
+
+// slowBS delays block writes by the owning node's putDelay
+type slowBS struct {
+	bstore.Blockstore
+	d *atomic.Int64
+}
+
+func (s slowBS) Put(ctx context.Context, b blocks.Block) error {
+	if d := s.d.Load(); d > 0 {
+		time.Sleep(time.Duration(d))
+	}
+	return s.Blockstore.Put(ctx, b)
+}
+
+func (s slowBS) PutMany(ctx context.Context, bs []blocks.Block) error {
+	if d := s.d.Load(); d > 0 {
+		time.Sleep(time.Duration(d))
+	}
+	return s.Blockstore.PutMany(ctx, bs)
 }
 
 func newE2ENode(ctx context.Context, h host.Host, name string, mon *channelmonitor.Config) *e2eNode {
 	n := &e2eNode{h: h, name: name, sub: &doubles.SubLog{}, val: doubles.NewRecValidator()}
-	n.bs = bstore.NewBlockstore(dss.MutexWrap(datastore.NewMapDatastore()))
+	n.bs = slowBS{bstore.NewBlockstore(dss.MutexWrap(datastore.NewMapDatastore())), &n.putDelay}
 	gs := gsimpl.New(ctx, gsnet.NewFromLibp2pHost(h), storeutil.LinkSystemForBlockstore(n.bs))
 	n.tr = gst.NewTransport(h.ID(), gs)
 	nw := network.NewFromLibp2pHost(h, network.RetryParameters(time.Second, 2*time.Second, 4, 1))
@@ -240,7 +265,7 @@ func TestC01E2E(t *testing.T) {
 		}
 		spec := walkDAG(src, root)
 		if storeCfg == 1 || storeCfg == 3 {
-			R.own = bstore.NewBlockstore(dss.MutexWrap(datastore.NewMapDatastore()))
+			R.own = slowBS{bstore.NewBlockstore(dss.MutexWrap(datastore.NewMapDatastore())), &R.putDelay}
 		}
 		for _, n := range []*e2eNode{S, R} {
 			if n.own != nil {
@@ -251,6 +276,11 @@ func TestC01E2E(t *testing.T) {
 					})
 				}
 			}
+		}
+		slowDisk := 0
+		if r.Intn(2) == 0 {
+			slowDisk = 1 + r.Intn(300)
+			R.putDelay.Store(int64(slowDisk) * int64(time.Millisecond))
 		}
 		// responder application behaviour
 		limit := uint64(0)
@@ -433,8 +463,11 @@ func TestC01E2E(t *testing.T) {
 		appMu.Unlock()
 		c.Count("link_cuts", cuts)
 		c.Count("pause_resume", pausesDone)
+		if slowDisk > 0 {
+			c.Count("slow_receiver_disk", 1)
+		}
 		c.Count("blocks", spec.positions)
-		c.Mark("pull=%v sc=%d store=%d ist=%s pst=%s cuts=%d pos=%d", pull, scenario, storeCfg, status(vi), status(vp), cuts, min(spec.positions, 8))
+		c.Mark("pull=%v sc=%d store=%d slow=%v ist=%s pst=%s cuts=%d pos=%d", pull, scenario, storeCfg, slowDisk > 0, status(vi), status(vp), cuts, min(spec.positions, 8))
 		if c.Index < 3 {
 			c.Sample(map[string]any{"pull": pull, "scenario": scenario, "store_config": storeCfg, "dag_positions": spec.positions, "distinct_blocks": len(spec.blocks), "unique_bytes": spec.unique,
 				"initiator": fmt.Sprint(vi), "responder": fmt.Sprint(vp), "limit_raises": raises, "link_cuts": cuts})
